@@ -22,7 +22,9 @@ pkgs=$(echo $pkgs | tr ' ' '\n' | sort -u | tr '\n' ' ')
 # the test name pattern: the one the demo's own instructions give, else anything with "seed" in it
 PAT=$(grep -o -- "-run [^ ]*" "$D/demo_path.txt" | head -1 | sed "s/^-run //; s/^['\"]//; s/['\"]$//")
 [ -n "$PAT" ] || PAT='Seed|seed|SEED'
-run_demo() { go test -vet=off -count=1 -run "$PAT" $pkgs >/tmp/confirm-$NAME-$1.log 2>&1; echo $?; }
+# a demonstration of a data race asks for the race detector in its own instructions
+RACE=""; grep -q -- "go test -race" "$D/demo_path.txt" && RACE="-race"
+run_demo() { go test $RACE -vet=off -count=1 -run "$PAT" $pkgs >/tmp/confirm-$NAME-$1.log 2>&1; echo $?; }
 without=$(run_demo without)
 git apply "$D/patch.diff"
 with=$(run_demo with)
